@@ -2,7 +2,7 @@
 
 package main
 
-// Part 3 of the C18 harness: the resource service's Read, Write and Delete endpoints
+// Part 3 of the C18 harness: the resource service's Read, Write, WriteStatus and Delete endpoints
 // (agent/grpc-external/services/resource/write.go, delete.go) on top of the real in-memory backend, under
 // real concurrency. These endpoints are where "a resource's UID never changes between versions while a
 // re-created resource is a distinct lifetime that stale writers and deleters cannot touch" is implemented
@@ -10,8 +10,11 @@ package main
 // deletes to the current lifetime) on top of the backend's CAS and of Backend.Read's uid / GroupVersion
 // rules. The type under test is demo Artist, registered in two GroupVersions (v1, v2) that share one
 // storage key; clients keep the ids (with uid) of every lifetime they have seen and come back with them
-// later — with either GroupVersion, with and without a version. There is no Lean model of this layer: the
-// monitors restate the property on the commit order seen by a storage-level observer watch.
+// later — with either GroupVersion, with and without a version; controllers write statuses (WriteStatus) on
+// the lifetime they know. The Lean model of this layer (CV.ResSvc) is tied by the sequential stream in
+// svcseq.go; here, under real concurrency, the monitors restate the property on the commit order seen by a
+// storage-level observer watch, and every resource handed out is encoded when the call returns: a committed
+// version is never modified in place (also what the race detector watches for).
 
 import (
 	"context"
@@ -22,8 +25,10 @@ import (
 	"time"
 
 	"github.com/hashicorp/go-hclog"
+	"github.com/oklog/ulid/v2"
 	"google.golang.org/grpc/codes"
 	"google.golang.org/grpc/status"
+	"google.golang.org/protobuf/proto"
 	"google.golang.org/protobuf/types/known/anypb"
 
 	"github.com/hashicorp/consul/acl"
@@ -64,6 +69,7 @@ type sop struct {
 	res       *pbresource.Resource // write / read result
 	// for name-only deletes: what the caller read right before and after
 	before, after *pbresource.Resource
+	digest        string // deterministic encoding of res taken when the call returned
 }
 
 func (o sop) line() string {
@@ -141,7 +147,19 @@ func newSvcEnv(run *hx.Run) *svcEnv {
 	return e
 }
 
+func digestOf(r *pbresource.Resource) string {
+	if r == nil {
+		return ""
+	}
+	b, err := proto.MarshalOptions{Deterministic: true}.Marshal(r)
+	if err != nil {
+		return "marshal-error"
+	}
+	return string(b)
+}
+
 func (e *svcEnv) record(o sop) {
+	o.digest = digestOf(o.res) // reads every field of the (possibly still stored) object: a committed version is immutable
 	e.mu.Lock()
 	e.ops = append(e.ops, o)
 	e.mu.Unlock()
@@ -185,6 +203,24 @@ func (e *svcEnv) rawRead(name, gv, uid string) (*pbresource.Resource, codes.Code
 		return nil, status.Code(err)
 	}
 	return rsp.Resource, codes.OK
+}
+
+// writeStatus is what a controller does: it names the lifetime it reconciled (uid) and mostly no version.
+func (e *svcEnv) writeStatus(tid int, name, gv, uid, vsn, gen string) *pbresource.Resource {
+	o := sop{tid: tid, kind: "s", name: name, gv: gv, uid: uid, presented: vsn}
+	if _, err := ulid.ParseStrict(gen); err != nil {
+		gen = obsGenConst
+	}
+	rsp, err := e.srv.WriteStatus(bg, &pbresource.WriteStatusRequest{
+		Id:  &pbresource.ID{Type: artistType(gv), Tenancy: svcTenancy(), Name: name, Uid: uid},
+		Key: fmt.Sprintf("ctl%d", tid%2), Version: vsn,
+		Status: &pbresource.Status{ObservedGeneration: gen, Conditions: []*pbresource.Condition{{Type: "c", State: pbresource.Condition_STATE_TRUE, Reason: "r", Message: fmt.Sprint(e.uniq.Add(1))}}}})
+	o.code = status.Code(err)
+	if err == nil {
+		o.res = rsp.Resource
+	}
+	e.record(o)
+	return o.res
 }
 
 func (e *svcEnv) read(tid int, name, gv, uid string) *pbresource.Resource {
@@ -265,8 +301,8 @@ func (e *svcEnv) finish(label string) {
 
 	// ---- the commit order, per resource
 	type cev struct {
-		del          bool
-		uid, vsn, gv string
+		del               bool
+		uid, vsn, gv, gen string
 	}
 	perKey := map[string][]cev{}
 	committed := map[string]int{} // name|uid|version of an upsert -> position in perKey[name]
@@ -275,7 +311,7 @@ func (e *svcEnv) finish(label string) {
 		if ev.kind == 'u' {
 			committed[n+"|"+ev.res.Id.Uid+"|"+ev.res.Version] = len(perKey[n])
 		}
-		perKey[n] = append(perKey[n], cev{ev.kind == 'x', ev.res.Id.Uid, ev.res.Version, ev.res.Id.Type.GroupVersion})
+		perKey[n] = append(perKey[n], cev{ev.kind == 'x', ev.res.Id.Uid, ev.res.Version, ev.res.Id.Type.GroupVersion, ev.res.Generation})
 	}
 	// live(i): the resource exists right before commit i, and with which uid
 	prevLive := func(name string, i int) (bool, cev) {
@@ -310,11 +346,30 @@ func (e *svcEnv) finish(label string) {
 		}
 	}
 
+	// a committed version never changes: whatever was handed out for one (name, uid, version) is one value
+	byVersion := map[string]string{}
+	for _, o := range ops {
+		if o.res == nil {
+			continue
+		}
+		k := o.name + "|" + o.res.Id.Uid + "|" + o.res.Version
+		if d, ok := byVersion[k]; ok && d != o.digest {
+			viol("svc:committed-version-mutated", "two calls returned different contents for the same uid and version of "+o.name+": a stored resource was modified in place")
+		}
+		byVersion[k] = o.digest
+	}
+	for _, ev := range obs {
+		k := ev.res.Id.Name + "|" + ev.res.Id.Uid + "|" + ev.res.Version
+		if d, ok := byVersion[k]; ok && ev.kind == 'u' && d != digestOf(ev.res) {
+			viol("svc:committed-version-mutated", "the committed event of a version of "+ev.res.Id.Name+" differs from what the calls returned for it: a stored resource was modified in place")
+		}
+	}
+
 	nOK := 0
 	casOK := map[string]int{}
 	for _, o := range ops {
 		switch o.kind {
-		case "w":
+		case "w", "s":
 			if o.code != codes.OK {
 				continue
 			}
@@ -480,6 +535,14 @@ func serviceHistory(run *hx.Run, r *hx.RNG) {
 							uid = strings.ToLower(known.Id.Uid)
 						}
 					}
+				}
+				if known != nil && tr.Chance(14) { // a controller reports on the lifetime it knows
+					sv := ""
+					if tr.Chance(30) {
+						sv = vsn
+					}
+					learn(e.writeStatus(tid, name, gv, uid, sv, known.Generation))
+					continue
 				}
 				switch n := tr.Intn(100); {
 				case n < 22: // user write: by name, non-CAS
